@@ -4,7 +4,6 @@ package c01
 
 import (
 	"fmt"
-	"regexp"
 	"strings"
 
 	"verif/harness/internal/core"
@@ -27,7 +26,6 @@ func (flavor) Impl(ops []lc.Op, obs []lc.StepObs) string {
 	return strings.Join(parts, " ")
 }
 
-var reListening = regexp.MustCompile(`http app module: start: listening on (?:tcp/)?(\S+?): `)
 
 // Oracle evaluates the property on the implementation's own observations: the harness keeps
 // the last accepted configuration (spec state) and demands after every operation that the
@@ -64,22 +62,8 @@ func (flavor) Oracle(ops []lc.Op, obs []lc.StepObs) []core.Failure {
 				What: fmt.Sprintf("op %d (%s → %s): GET /config/ returns %s, the running configuration is %s", i, op, o.Res, o.Raw, wantRaw)})
 		}
 		// F2 bookkeeping: the HTTP app's own Start failed at listener k ≥ 1
-		if o.Res == "err:start" && attempted != nil {
-			if m := reListening.FindStringSubmatch(o.Err); m != nil {
-				for _, a := range attempted.Apps {
-					if !a.IsHTTP() {
-						continue
-					}
-					for k, ad := range a.Listen {
-						if lc.AddrString(ad) == m[1] {
-							for _, before := range a.Listen[:k] {
-								leaked[before] = append(leaked[before], a.Tag)
-							}
-							break
-						}
-					}
-				}
-			}
+		for a, t := range lc.F2Leak(attempted, o) {
+			leaked[a] = append(leaked[a], t...)
 		}
 		want := lc.WantSocks(running)
 		if lc.SocksEqual(o, want) {
